@@ -248,7 +248,9 @@ def handle (op : String) (f : List String) : Verdict :=
       let nmax := (tips.map fun a => (tips.filter fun b => decide (a < b) && t.dist a b == D).length).sum
       judge { t := t, model := rerootMidPoint t, outcome := outcome, after := after, root := nmax == 1,
               small := t.tipNames.length < 3,
-              tags := ["op-midpoint"] ++ tagIf positive "positive" ++ tagIf (allLens t && diam t == 0) "allzero" ++ tagIf (midpointStale t) "stale-farend" ++ tagIf (nmax == 1) "unique-longest" ++ tagIf (nmax > 1) "tied-longest",
+              tags := ["op-midpoint"] ++ tagIf positive "positive" ++ tagIf (allLens t && diam t == 0) "allzero" ++ tagIf (midpointStale t) "stale-farend" ++ tagIf (nmax == 1) "unique-longest" ++ tagIf (nmax > 1) "tied-longest" ++
+                tagIf (match rerootMidPoint t with | .ok m => m.kids.any (·.1.len == 0) && diam t > 0 | _ => false) "mid-root-on-node" ++
+                tagIf (match rerootMidPoint t with | .ok m => nmax == 1 && m.kids.any (fun k => k.1.len == 0 && k.1.sup != NIL) | _ => false) "mid-on-node-unique-supported",
               okOracle := (fun u =>
                 match presMsg t u with
                 | some m => some (midClass t u ++ m)
@@ -351,15 +353,23 @@ def handle (op : String) (f : List String) : Verdict :=
       if (List.zip ms us).any (fun p => obs root p.1 != obs root p.2) then ⟨.tie, tags, "a written tree differs from the model's"⟩
       else ⟨.pass, tags, ""⟩
     | _, _, _, _, _, _, _, _ => bad "C05.cli fields"
-  | "index", [dump, stepss, dones, outcome, after, nbs, idss, bitss, stales] =>
-    match T.undump dump, (splitTerm ";" stepss).mapM parseStep, dones.toNat?, parseStrList stales with
-    | some t, some steps, some done, some stale =>
+  | "index", [dump, stepss, dones, outcome, after, nbs, idss, bitss, stales, trails] =>
+    match T.undump dump, (splitTerm ";" stepss).mapM parseStep, dones.toNat?, parseStrList stales, (splitTerm "|" trails).mapM T.undump with
+    | some t, some steps, some done, some stale, some trail =>
+      -- oracle on every step of the history, between the implementation's own trees before and after it
+      let stepMsgs := (List.zip steps (List.zip (t :: trail) trail)).filterMap fun (s, b, a) =>
+        if !(C05.uniq b) || b.tipNames.length < 3 then none else
+        (match s with
+         | .outgroup rm st S => outgroupOkMsg b rm st S a
+         | .midpoint => (match presMsg b a with | some m => some m | none => if halfwayOK b a then none else some "root not halfway along a longest path")
+         | _ => presMsg b a).map fun m => "step " ++ stepTag s ++ " of the history: " ++ m
       let tags := ["op-index", "steps-" ++ toString steps.length] ++ (steps.map fun s => "step-" ++ stepTag s).eraseDups ++
         tagIf (C05.uniq t) "uniq" ++ tagIf t.rooted "rooted" ++ tagIf (!t.noSingle) "singles" ++ tagIf (t.kids.length == 1) "roottip" ++
         tagIf (steps.all (·.keeps)) "history-keeps" ++ tagIf (historyOK steps t) "hyp-historyok"
       if !(C05.uniq t) then ⟨.pass, "skip-dupnames" :: tags, ""⟩ else
       let (mdone, mres) := runSteps steps t
       if startsWith outcome "malformed" then ⟨.oracle, tags, "heap malformed after the history: " ++ outcome⟩ else
+      if let m :: _ := stepMsgs then ⟨.oracle, tags, m⟩ else
       if startsWith outcome "panic" then
         (match mres with
          | .panic _ => if t.tipNames.length < 3 then ⟨.pass, "panic-small" :: tags, ""⟩ else ⟨.oracle, tags, outcome⟩
@@ -392,7 +402,7 @@ def handle (op : String) (f : List String) : Verdict :=
           else ⟨.pass, tags ++ tagIf (m.dump == after) "exact" ++ tagIf (m.dump != after) "inexact", ""⟩
         | m => ⟨.tie, tags, "history succeeds, model says " ++ m.cls⟩
       | _, _, _, _ => bad "C05.index observation fields"
-    | _, _, _, _ => bad "C05.index fields"
+    | _, _, _, _, _ => bad "C05.index fields"
   | _, _ => bad ("C05: unknown op " ++ op)
 
 end Gotree.Driver.C05
